@@ -313,5 +313,5 @@ MANIFEST_TEXT = {
     "C20": {"design_ref": "3.20 and 4",
             "level_text": "Partial claim: seeded exploration of the C-level uatomic layer (lost updates under preemption at every access, litmus tests under simulated TSO, differential value semantics for both implementations). Single-instruction atomicity and fencing are axioms of the simulator, not something it can test.",
             "level_note": _SIM_NOTE + " single-instruction atomicity and fencing are axioms of the simulator, not something it can test.",
-            "technique": "deterministic simulation (preemption at every access, simulated x86-TSO litmus) plus seeded differential testing of value semantics"},
+            "technique": "deterministic simulation (preemption at every access, simulated x86-TSO litmus) plus seeded differential testing of value semantics, the latter also in ordinary optimised builds without hooks or instrumentation (native stage)"},
 }
